@@ -197,6 +197,7 @@ class Enum:
                 self.name == other.name
                 and self.type == other.type
                 and self.values == other.values
+                and bool(self.supportsCustomValues) == bool(other.supportsCustomValues)
             )
         return False
 
@@ -762,6 +763,7 @@ class Notification:
         if isinstance(other, Notification):
             return (
                 self.method == other.method
+                and self.typeName == other.typeName
                 and self.messageDirection == other.messageDirection
                 and self.params == other.params
                 and self.registrationOptions == other.registrationOptions
@@ -849,6 +851,7 @@ class Request:
         if isinstance(other, Request):
             return (
                 self.method == other.method
+                and self.typeName == other.typeName
                 and self.messageDirection == other.messageDirection
                 and self.params == other.params
                 and self.result == other.result
